@@ -330,6 +330,16 @@ def check(ctx):
                       for c in C.node_calls(n))
         tabs = sx.tables(loop.ast.iter, loop)
         tab = tabs[0] if tabs else None
+        if pops or watches:
+            skip = K.find_path(wgraph.entry, [wgraph.exit],
+                               cut_node=lambda n, lp=loop: n is lp,
+                               follow_exc=False)
+            ctx.ob('C20.6', wf, loop, skip is None,
+                   'every notification reaches the %s pass (no early '
+                   'return before it)' % ('removal' if pops else 'watch'),
+                   path=K.describe(skip) if skip else None,
+                   construct='monitors %s pass reached' %
+                   ('removal' if pops else 'watch'))
         if pops:
             want = sx.expect(lambda e: e['known'] and not e['listed'])
             ctx.ob('C20.6', wf, loop, tab == want,
